@@ -237,3 +237,39 @@ package mvp6_0
 //@   ensures wfBTB(u.btb) && btbHas(u.btb, pc) && (forall a :: btbFirst(u.btb, pc, a) ==> at(u.btb.buffer, a).pcDest == pcTo)
 //@   ensures u.toCheck == old(u.toCheck) && u.expectation == old(u.expectation)
 // ---- END generated by gen_bu.py
+
+// ---- BEGIN generated by gen_l3.py: L3 fill, eviction write-back and the pending-fetch list (C05, C07)
+// getFromL3: a hit returns one byte per address; otherwise either a fetch of
+// the first missing address is already marked pending (nothing changes) or a
+// mark [a, a+lineSize+1) is appended for it. pushLineToL3: the line becomes the
+// most recently used one, the least recently used line is displaced when the
+// cache is full and must then be in memory (the real code writes the NEW line
+// back instead: known finding F13), and the first pending mark that starts at
+// addr is removed, the others keep their order (a mark that is never removed
+// makes every later load of its range wait for ever: C07).
+//@ spec func markedAt(u *memoryManagementUnit, a int32, k int) bool = 0 <= k && k < len(u.pendings) && u.pendings[k][0] == a && (forall j :: 0 <= j && j < k ==> u.pendings[j][0] != a)
+
+//@ func (*memoryManagementUnit).getFromL3
+//@   requires wfMMU(u) && (forall k :: 0 <= k && k < len(addrs) ==> 0 <= addrs[k] && addrs[k] <= 1073741824)
+//@   ensures result2 ==> len(result) == len(addrs) && !result1
+//@   ensures !result2 ==> result == nil
+//@   ensures result1 || result2 ==> u.pendings == old(u.pendings)
+//@   ensures !result1 && !result2 ==> len(u.pendings) == len(old(u.pendings)) + 1 && (forall j :: 0 <= j && j < len(old(u.pendings)) ==> u.pendings[j] == old(u.pendings[j])) && u.pendings[len(u.pendings)-1][1] == u.pendings[len(u.pendings)-1][0] + 65
+//@   ensures !result1 && !result2 ==> (exists k :: 0 <= k && k < len(addrs) && u.pendings[len(u.pendings)-1][0] == addrs[k])
+//@   ensures len(u.l3.lines) == len(old(u.l3.lines)) && wfMMU(u)
+//@   assigns u.l3.lines, u.pendings, all [][2]int32
+//@   loop 0: invariant wfMMU(u) && u.l3 == old(u.l3) && u.ctx == old(u.ctx) && u.pendings == old(u.pendings) && len(u.l3.lines) == len(old(u.l3.lines)) && len(memory) == _idx0 && cap(memory) >= len(addrs) && fresh(memory) && !sameArray(memory, addrs)
+//@   loop 0: invariant forall j :: 0 <= j && j < len(u.pendings) ==> u.pendings[j] == old(u.pendings[j])
+
+//@ func (*memoryManagementUnit).pushLineToL3
+//@   requires wfMMU(u) && len(u.l3.lines) <= u.l3.numberOfLines && 0 <= int32(addr) && int32(addr) <= 1073741824 && len(line) <= 1048576 && !sameArray(line, u.ctx.Memory) && allocated(u.ctx.Memory)
+//@   ensures u.l3.numberOfLines > 0 ==> u.l3.lines[0].Boundary[0] == addr && u.l3.lines[0].Data == line
+//@   ensures len(u.l3.lines) == min(len(old(u.l3.lines)) + 1, u.l3.numberOfLines)
+//@   ensures forall j :: 0 < j && j < len(u.l3.lines) ==> u.l3.lines[j] == old(u.l3.lines[j-1])
+//@   ensures forall k :: old(len(u.l3.lines)) == u.l3.numberOfLines && u.l3.numberOfLines > 0 && 0 <= k && k < u.l3.lineLength && int(old(u.l3.lines[len(u.l3.lines)-1].Boundary[0])) + k < len(u.ctx.Memory) ==> u.ctx.Memory[int(old(u.l3.lines[len(u.l3.lines)-1].Boundary[0])) + k] == old(u.l3.lines[len(u.l3.lines)-1].Data[k])
+//@   ensures (forall j :: 0 <= j && j < len(old(u.pendings)) ==> old(u.pendings[j][0]) != int32(addr)) ==> len(u.pendings) == len(old(u.pendings)) && (forall j :: 0 <= j && j < len(u.pendings) ==> u.pendings[j] == old(u.pendings[j]))
+//@   ensures forall k :: old(markedAt(u, int32(addr), k)) ==> len(u.pendings) == len(old(u.pendings)) - 1 && (forall j :: 0 <= j && j < k ==> u.pendings[j] == old(u.pendings[j])) && (forall j :: k <= j && j < len(u.pendings) ==> u.pendings[j] == old(u.pendings[j+1]))
+//@   finding F13-evicted-line-not-written-back: len(u.l3.lines) == u.l3.numberOfLines && u.l3.numberOfLines > 0
+//@   assigns u.l3.lines, u.ctx.Memory[*], u.pendings, all [][2]int32
+//@   loop 0: invariant u.pendings == old(u.pendings) && (forall j :: 0 <= j && j < _idx0 ==> u.pendings[j][0] != int32(addr)) && _range0 == u.pendings
+// ---- END generated by gen_l3.py
